@@ -22,7 +22,9 @@ class Check(PropertyCheck):
     level_text = ("Lean theorems about the executable model of domain_names.pack/unpack_from_with_compression (with its "
                   "offset cache and nesting limit)/expand_record_data and DNSMessage.packed/unpack. `roundtrip`: every "
                   "well-formed message (full field ranges, IDNA-canonical names, arbitrary record data that holds no "
-                  "compression pointer in a name field of its type) decodes back to itself, for every idna codec; "
+                  "compression pointer in a name field of its type) decodes back to itself, for every idna codec - this is the "
+                  "PARTIAL form (`roundtrip_partial`) of the clause's full statement `RoundtripAll` (record data arbitrary), "
+                  "which fails: `roundtrip_all_counterexample`, F-C25b; "
                   "`roundtrip_ascii` + `canon_of_ascii`: for names made of ASCII labels (the codec's ASCII fast path is "
                   "transcribed in the model) the round trip holds outright, with a codec-free decidable well-formedness "
                   "predicate - only non-ASCII / xn-- labels remain relative to the codec parameter. Totality: "
